@@ -248,11 +248,15 @@ def spell_reg(rng, n):
     return 'fp' if n == 8 else operands.ABI[n]
 
 
-def spell_int(rng, v):
-    k = rng.randrange(3)
+def spell_int(rng, v, paren_ok=False):
+    k = rng.randrange(5 if paren_ok else 4)
     if k == 0:
         return str(v)
-    s = hex(abs(v)) if k == 1 else bin(abs(v))
+    if k == 4:
+        return rng.choice(['(%d)', '( %d )', '(%d + 0)']) % v      # an immediate is an expression; parentheses are documented there
+    s = hex(abs(v)) if k in (1, 3) else bin(abs(v))
+    if k == 3:
+        s = '0x' + s[2:].upper()
     return ('-' if v < 0 else '') + s
 
 
@@ -276,7 +280,7 @@ def text_line(rng, m, tup, kw):
         elif m in BASE_OFFSET and rng.random() < 0.5:
             return '%s %s%s%s(%s)' % (m, spell_reg(rng, rd), sep(), spell_int(rng, imm), spell_reg(rng, rs1))
         else:
-            ops = [spell_reg(rng, rd), spell_reg(rng, rs1), spell_int(rng, imm)]
+            ops = [spell_reg(rng, rd), spell_reg(rng, rs1), spell_int(rng, imm, paren_ok=m not in BASE_OFFSET)]
     elif c == 'S':
         rs1, rs2, imm = tup
         if rng.random() < 0.5:
@@ -285,14 +289,14 @@ def text_line(rng, m, tup, kw):
     elif c == 'B':
         ops = [spell_reg(rng, tup[0]), spell_reg(rng, tup[1]), spell_int(rng, tup[2])]
     elif c in ('U', 'J'):
-        ops = [spell_reg(rng, tup[0]), spell_int(rng, tup[1])]
+        ops = [spell_reg(rng, tup[0]), spell_int(rng, tup[1], paren_ok=c == 'U')]
     elif c == 'F':
         ops = [spell_int(rng, tup[0]), spell_int(rng, tup[1])]
     elif c == 'A':
         ops = [spell_reg(rng, r) for r in tup]
         if kw['aq'] or kw['rl'] or rng.random() < 0.5:
             ops += [spell_int(rng, kw['aq']), spell_int(rng, kw['rl'])]
-    s = m + ' ' + ops[0]
+    s = rng.choice([m, m, m.upper(), m.capitalize()]) + ' ' + ops[0]
     for o in ops[1:]:
         s += sep() + o
     return s
